@@ -16,6 +16,16 @@ SPECS = {
             "actor ids are compared through their rank in byte order",
         ],
     },
+    "C20": {
+        "engines": [
+            {"name": "c20", "n": {"quick": 1200, "thorough": 12000}},
+        ],
+        "explanation": "Theorems about the ChangeStore model (Cache/ChangeStore.v): transparency and no-refetch for every disciplined call sequence; the model is compared with the real mongo.ChangeStore on random op sequences over tables with holes; the transparency oracle is also evaluated directly on the implementation.",
+        "assumptions": [
+            "caller obligations of mongo/client.go (inserted items are table rows; a range is expanded only after its rows were inserted; new rows are not yet covered) are hypotheses of the theorem; the MongoDB client code that must honour them cannot run here",
+            "btree and sort.Slice are abstracted to sorted lists",
+        ],
+    },
 }
 
 
